@@ -127,6 +127,11 @@ def canon(ir):
     if k == 'tuple':
         return Poly.atom('(%s)' % ', '.join(canon(x).show() for x in ir[1]))
     if k == 'ite':
+        # ite(a, ite(b, X, Y), Y) is ite(a and b, X, Y); ite(a, X, ite(b, X, Y)) is ite(a or b, X, Y)
+        if ir[2][0] == 'ite' and canon(ir[2][3]) == canon(ir[3]):
+            return canon(('ite', ('and', [ir[1], ir[2][1]]), ir[2][2], ir[3]))
+        if ir[3][0] == 'ite' and canon(ir[3][2]) == canon(ir[2]):
+            return canon(('ite', ('or', [ir[1], ir[3][1]]), ir[2], ir[3][3]))
         c = ccanon(ir[1])
         a, b = canon(ir[2]), canon(ir[3])
         if c == 'true':
